@@ -235,7 +235,7 @@ def run_C03(run):
     # (2a') the positional forms used as predicates: re-evaluated for every candidate of the host step
     run.gen_and_replay("MC_Expr", consts(ec, Family="C03nested", MaxNodes=1 if q else 5, CatIds={3, 5, 7} if q else ALL_CAT), name="pos-nested", kind="sel-set")
     # (2b) XQueryVM2 on numeric predicates (position counters, positmap, merge rewrite, (path)[n] re-rooting)
-    vm2_stage(run, {2, 3, 4, 5}, "C03")
+    vm2_stage(run, {2, 3, 4, 5, 7}, "C03")
     for dev in ("pos-ignores-test", "child-posit-not-reset", "group-posit-not-reset"):
         r = run.tlc("MC_VM2", consts(VM2_BASE, Deviations={dev}, Parts={2, 4, 5}, HostAxes={"child"}), invariants=("VM2Refines",),
                     name="vm2-deviation-" + dev, out=False, allow_violation=True)
